@@ -225,16 +225,39 @@ def effective(opts, tree):
     return method, enc, indent
 
 
-def align(exp, got, path=''):
+URI_ATTRS = {'href', 'src', 'cite', 'action', 'background', 'codebase', 'data', 'longdesc', 'profile', 'usemap', 'classid', 'for', 'archive'}
+
+
+def uri_escaped(v):
+    return ''.join(ch if (33 <= ord(ch) < 127 and ch != '"') or ch == ' ' else ''.join('%%%02X' % b for b in ch.encode('utf-8', 'surrogatepass')) for ch in v)
+
+
+def uri_attrs_equal(exp, got):
+    """XSLT 1.0 16.2: the html output method SHOULD escape non-ASCII characters in URI attribute values (HTML 4.0 B.2.1: UTF-8 bytes as %HH).
+    Xalan (FormatterToHTML::writeAttrURI, on unless setEscapeURLs(No)) also escapes control characters, DEL and the double quote, which RFC 2396
+    excludes from URIs.  For the URI attributes of HTML 4 the value is therefore compared modulo exactly that escaping; all other attributes exactly."""
+    if set(exp) != set(got):
+        return False
+    for k, v in exp.items():
+        g = got[k]
+        if g == v:
+            continue
+        if k[1] in URI_ATTRS and uri_escaped(g).lower() == uri_escaped(v).lower():
+            continue
+        return False
+    return True
+
+
+def align(exp, got, path='', uri_escape=False):
     """exp == got except that got may contain additional whitespace-only text nodes"""
     i = j = 0
     while i < len(exp) or j < len(got):
         if i < len(exp) and j < len(got):
             x, y = exp[i], got[j]
             if x[0] == y[0] == 'E' and x[1] == y[1]:
-                if x[2] != y[2]:
+                if x[2] != y[2] and not (uri_escape and uri_attrs_equal(x[2], y[2])):
                     return '%s/%d: attributes %r vs %r' % (path, i, sorted(x[2].items())[:5], sorted(y[2].items())[:5])
-                d = align(x[3], y[3], '%s/%d' % (path, i))
+                d = align(x[3], y[3], '%s/%d' % (path, i), uri_escape)
                 if d:
                     return d
                 i += 1
@@ -406,7 +429,7 @@ def judge(ctx, tree, opts, r):
         return {'what': 'html-structure', 'problems': p.problems[:4], 'out': text[:300]}
     got = strip_meta(merge_rec(p.top))
     want = strip_meta(merge_rec(html_expected(tree)))
-    d = align(want, got)
+    d = align(want, got, uri_escape=opts['settings'].get('set.escapeurls') != 1)
     if d:
         return {'what': 'html-tree-differs', 'diff': d[:400], 'indent': indent, 'enc': enc, 'out': text[:300]}
     return None
@@ -451,7 +474,8 @@ def check(ctx, case):
         r, xsl = run_one(ctx, tree, opts)
         d = judge(ctx, tree, opts, r)
         if d:
-            d.update(side=name, method=method, options=opts, xsl=xsl[:1500])
+            d.update(side=name, method=method, options=opts, xsl=xsl[:1500],
+                     trig=[fid for fid, pred in EXCLUSIONS if pred(tree, opts, method, enc, indent, nonascii)])
             return d
         results[name] = r
     return None
@@ -473,7 +497,16 @@ def _text_has(tree, pred):
     return any(walk(n) for n in tree)
 
 
+def _raw_text_nonascii(tree):
+    def walk(n, raw):
+        if n['t'] in ('t', 'd'):
+            return raw and any(ord(c) > 127 for c in n['v'])
+        return n['t'] == 'e' and any(walk(c, n['n'].lower() in ('script', 'style')) for c in n['c'])
+    return any(walk(n, False) for n in tree)
+
+
 EXCLUSIONS = [
+    ('F-C08-script-unencodable', lambda tree, opts, method, enc, indent, nonascii: method == 'html' and enc not in ('UTF-8', 'UTF-16') and _raw_text_nonascii(tree)),
     ('F-C08-html-astral-split', lambda tree, opts, method, enc, indent, nonascii: method in ('html', 'text') and any(ord(ch) > 0xFFFF for _, t in gen_tree.all_strings(tree) for ch in t)),
     ('F-C04-cdata-cr', lambda tree, opts, method, enc, indent, nonascii: method == 'xml' and opts['output'].get('cdata-section-elements') and
      _text_has(tree, lambda cp: cp == 13 or (opts['output'].get('version') == '1.1' and cp in (0x85, 0x2028)))),
@@ -487,7 +520,8 @@ EXCLUSIONS = [
 def signature(case, detail):
     if 'crash' in detail:
         return 'crash:%s' % detail['crash']
-    sig = '%s|%s|%s' % (detail['what'], detail.get('method'), 'indent' if detail.get('indent') else '')
+    # the last-but-one field lists the open-finding triggers present on the failing side: a finding's signature requires its own trigger
+    sig = '%s|%s|%s|%s' % (detail['what'], detail.get('method'), 'indent' if detail.get('indent') else '', ','.join(detail.get('trig', [])))
     if detail['what'] == 'transformation-failed':
         sig += '|' + re.split(r'[:\s]', detail.get('err', '') or '?')[0]
     return sig
